@@ -118,6 +118,7 @@ def ob_read(k, which, replace, width, timeout):
     def body(*ts):
         ivs = [(ts[2 * i], ts[2 * i + 1]) for i in range(k)]
         fw = FakeWave(SAMPLES, width, rate)
+        fw.readframes(3)  # the handle has been read from before: the result must not depend on its position
         gen = audio.AudioGenerator(width, rate)
         kw = {"keepIntervals": ivs} if which == "keep" else {"deleteIntervals": ivs}
         if replace:
@@ -152,6 +153,10 @@ def ob_read(k, which, replace, width, timeout):
                 want += [0] * cnt
         if _unpack(got, width) != want:
             return "returned samples differ from kept stretches (+ generated replacement)"
+        if audio.readFramesAtTimes(fw, **kw) != got:
+            return "a second read through the same handle returns something else"
+        if k == 0 and audio.readFramesAtTimes(fw) != got:
+            return "no lists at all (defaults) on a used handle: not the whole recording"
         return True
 
     return Ob("read-%s-k%d-%s-w%d" % (which, k, "silence" if replace else "drop", width), F(*names), body, pre, fmode="real", timeout=timeout, funcs=FUNCS[2:4] + FUNCS[:2], bounds="8 samples at 8 Hz, width %d, %d %s-intervals with arbitrary real boundaries in [0,2] (beyond the 1 s recording => ArgumentError)" % (width, k, which))
